@@ -77,6 +77,14 @@ def build_tracking_series(case):
     if case.get("times") == "unequal":
         ts = np.cumsum(rng.uniform(0.2, 3.0, size=n))
         s.times = [float(x) for x in ts]
+    elif case.get("times") == "from_zero":
+        # a genuine time stamp of exactly 0 on the first frame, steps other than 1
+        s.times = [0.0] + [float(x) for x in np.cumsum(rng.uniform(0.2, 3.0, size=n - 1))]
+    elif case.get("times") == "through_zero":
+        # negative stamps, one frame at exactly 0, unequal steps
+        ts = np.cumsum(rng.uniform(0.2, 3.0, size=n))
+        k = int(rng.integers(n))
+        s.times = [float(x - ts[k]) for x in ts]
     else:
         s.times = [float(t) for t in range(n)]
     # drop a cell in later frames if requested (vertices that disappear)
